@@ -342,11 +342,26 @@ def tolerance(repo, rep):
     loop = [n for n in fi.node.body if isinstance(n, ast.For)][0]
     tests = [n for n in loop.body if isinstance(n, ast.If)]
     cid = cdist = None
+    inline_nearest = False
     for s in loop.body:
         if isinstance(s, ast.Assign) and isinstance(s.targets[0], ast.Tuple) and len(s.targets[0].elts) == 2 and isinstance(s.value, ast.Call) \
                 and isinstance(s.value.func, ast.Attribute) and s.value.func.attr == "nearest":
             cid, cdist = (unparse(e) for e in s.targets[0].elts)
     if cid is None:
+        # the helper written out in the loop:  d = coords.distance(lon, lat); i = d.argmin(); di = d[i]
+        for s in loop.body:
+            if isinstance(s, ast.Assign) and isinstance(s.targets[0], ast.Name) and isinstance(s.value, ast.Call) and isinstance(s.value.func, ast.Attribute) \
+                    and s.value.func.attr == "argmin" and not s.value.args:
+                dn = unparse(s.value.func.value)
+                dsrc = [a for a in loop.body if isinstance(a, ast.Assign) and unparse(a.targets[0]) == dn and isinstance(a.value, ast.Call)
+                        and isinstance(a.value.func, ast.Attribute) and a.value.func.attr == "distance"]
+                if dsrc:
+                    cid = s.targets[0].id
+                    for a in loop.body:
+                        if isinstance(a, ast.Assign) and isinstance(a.targets[0], ast.Name) and unparse(a.value).replace(" ", "") == f"{dn}[{cid}]":
+                            cdist = a.targets[0].id
+                            inline_nearest = True
+    if cid is None or cdist is None:
         raise AnalysisError("sel_nearest: (id, distance) = coords.nearest(...) not found")
     app = [i for i, s in enumerate(loop.body) if isinstance(s, ast.Expr) and isinstance(s.value, ast.Call) and isinstance(s.value.func, ast.Attribute)
            and s.value.func.attr == "append" and [unparse(a_) for a_ in s.value.args] == [cid]]
@@ -374,7 +389,7 @@ def tolerance(repo, rep):
         rep.ok("R-C14-5", f"{fi.file}:{fi.node.lineno} nearer", "argsort by distance, <= tolerance, [:max_sites]", "closest first, within tolerance, at most max_sites")
     else:
         rep.fail("R-C14-5", fi.file, fi.node.lineno, fi.qualname, "neighbour filter", "neighbours = stations sorted by distance, within tolerance (<=), truncated to max_sites")
-    fi = repo.func(f"{SEL}.Coordinates.nearest")
+    fi = repo.func(f"{SEL}.Coordinates.nearest") if not inline_nearest else repo.func(f"{SEL}.sel_nearest")
     t = unparse(fi.node).replace(" ", "")
     if any(isinstance(c_, ast.Call) and isinstance(c_.func, ast.Attribute) and c_.func.attr == "argmin" and not c_.args for c_ in ast.walk(fi.node)) \
             and not any(isinstance(c_, ast.Call) and isinstance(c_.func, ast.Attribute) and c_.func.attr == "argmax" for c_ in ast.walk(fi.node)):
